@@ -9,12 +9,10 @@ import (
 
 func getFullPath(filename string, appendExt bool) (string, error) {
 	verifGate("getFullPath.readMode")
-	if usesTemplates {
-		filename = joinPaths(userConfig.TemplateDir, filename)
-	}
-
+	// a template name is relative to the template directory and has no
+	// extension; anything else is a path that is used as it is
 	if appendExt {
-		filename += userConfig.TemplateExt
+		filename = joinPaths(userConfig.TemplateDir, filename) + userConfig.TemplateExt
 	}
 
 	absPath, err := filepath.Abs(filename)
